@@ -286,7 +286,7 @@ func main() {
 	}
 	alphaLens := []int{0, 1, 72, 127, 128, 1000}
 	var cases []Case
-	n := r.Pick(10, 300)
+	n := r.Pick(30, 900)
 	for i := 0; i < n; i++ {
 		seed := mon.Bytes(rng, 32)
 		switch {
@@ -302,7 +302,7 @@ func main() {
 			cases = append(cases, Case{Kind: "honest", Seed: mon.Hex(seed), Alpha: mon.Hex(alpha), V10: v10, Idx: i})
 		}
 	}
-	for i := 0; i < r.Pick(1, 10); i++ {
+	for i := 0; i < r.Pick(2, 30); i++ {
 		cases = append(cases, Case{Kind: "badkeys", Idx: i})
 	}
 	r.Parallel(len(cases), func(i int) { runCase(r, cases[i]) })
